@@ -81,6 +81,26 @@ func TestVerifFallbackDiscoveryGet(t *testing.T) {
 			}
 		}
 	}
+	// one discovery object across group-size changes (grow and shrink): always the partition of the current group
+	{
+		ms := &vfMembership{&membership.Model{MemberNumber: 1, TotalMembers: 1}}
+		d := &vBucketDiscovery{vBucketNumber: 1024, membership: ms, vBucketDiscoveryMetric: &VBucketDiscoveryMetric{VBucketCount: 1024}}
+		for _, total := range []int{1, 4, 3, 8, 2, 5, 1} {
+			next := 0
+			for member := 1; member <= total; member++ {
+				ms.info = &membership.Model{MemberNumber: member, TotalMembers: total}
+				for _, v := range d.Get() {
+					if int(v) != next {
+						t.Fatalf("VIOLATION C09: after the group size changed to %d, member %d's range does not continue at %d (got %d): stale partition", total, member, next, v)
+					}
+					next++
+				}
+			}
+			if next != 1024 {
+				t.Fatalf("VIOLATION C09: after the group size changed to %d the ranges cover %d of 1024 vBuckets", total, next)
+			}
+		}
+	}
 	if bad > 5 {
 		t.Errorf("... and %d more", bad-5)
 	}
